@@ -5,7 +5,7 @@ open Lean PdeVerif PdeVerif.Interrupts PdeVerif.Controller
 
 /-
 c07.run (also used by C08)
-{"mode":"Q"|"F", "dt":x, "t_start":x, "t_end":x, "eps":x, "u0":x, "eq":"one"|"time"|"decay",
+{"mode":"Q"|"F", "dt":x, "t_start":x, "t_end":x, "eps":x, "u0":x, "eq":"one"|"time"|"timeshift" (+"shift":x),
  "trackers":[{"kind":"callback"|"storage"|"data",
               "sched":{"kind":"constant","dt":x,"t_start":null|x}
                      |{"kind":"logarithmic","dt_initial":x,"factor":x,"t_start":null|x}
@@ -85,7 +85,9 @@ def runJson (getK : Json → Except String K) (putK : K → Json) (j : Json) : E
   let step : K → K → K ← (match eq with
     | "one" => pure (fun u _ => u + dt * ((1 : Nat) : K))
     | "time" => pure (fun u t => u + dt * t)
-    | "decay" => pure (fun u t => u + dt * (t - u))
+    | "timeshift" => do
+      let c ← getK (← fld j "shift")
+      pure (fun u t => u + dt * (t + c))
     | s => throw s!"unknown equation {s}")
   let specs ← getL (parseTracker getK) (← fld j "trackers")
   let r := runSpec dt tStart tEnd eps step u0 specs
